@@ -3,9 +3,10 @@
     equality between M and M' = main (options written for M), plus the
     fixed point of the written text.
 """
+import re, json
 import os, copy, shutil, tempfile
 import numpy as np
-from pmv import common, gen, observe
+from pmv import common, gen, observe, instrument
 from pmv.oracles import georef
 
 ID   = 'C15'
@@ -117,6 +118,9 @@ def make (c):
     spec ['tr'] = tr
     if rng.random () < 0.3:
         spec ['sc'] = [[float (np.round (10 ** rng.uniform (-0.3, 0.3), 4)), None]]
+        if not gnd and rng.random () < 0.5:
+            # scale factors for single objects, possibly several
+            spec ['sc'] = [[float (np.round (10 ** rng.uniform (-0.3, 0.3), 4)), int (t)] for t in rng.permutation (alltags) [: int (rng.integers (1, 3))]]
     # sources: CLI addressing
     nsrc = int (rng.integers (1, 4))
     src  = []
@@ -367,6 +371,78 @@ def check (c):
         d1 = sorted (set (text1.split ('\n')) - set (text2.split ('\n'))) [:3]
         d2 = sorted (set (text2.split ('\n')) - set (text1.split ('\n'))) [:3]
         bad ('fixed-point', 'second-generation-differs', 'options written for the re-read model differ: only first %r, only second %r' % (d1, d2))
+    # ---- field requests handed to as_cmdline (angles, near-field grid, power levels, distance, print options):
+    # the written list must be accepted and ask for the same tables (six printed digits)
+    rq = np.random.default_rng ([int (common.sha (json.dumps (common.jsonable (argv))) [:8], 16), 15])
+    if rq.random () < 0.5:
+        MM  = common.repo ()
+        dig = lambda x: float ('%.*g' % (int (rq.integers (2, 9)), x))
+        zen = (dig (rq.uniform (0, 80)), dig (rq.uniform (1, 30)), int (rq.integers (1, 4)))
+        azi = (dig (rq.uniform (0, 300)), dig (rq.uniform (1, 90)), int (rq.integers (1, 4)))
+        big = 50 * size + 5 * gen.C_MHZ / m.f
+        near = [dig (big * rq.uniform (1, 2)) for k in range (3)] + [dig (rq.uniform (0.01, 2)) for k in range (3)] + [int (x) for x in rq.permutation ([1, 2, int (rq.integers (1, 4))])]
+        kw  = dict (azi = MM.Angle (*azi), zen = MM.Angle (*zen), near = near)
+        opt = ['near-field', 'far-field']
+        if rq.random () < 0.6:
+            kw ['pwr_nf'] = dig (10 ** rq.uniform (-2, 3))
+        if rq.random () < 0.6:
+            kw ['pwr_ff'] = dig (10 ** rq.uniform (-2, 3))
+        if rq.random () < 0.6:
+            kw ['ff_dist'] = dig (10 ** rq.uniform (1, 4))
+            opt.append ('far-field-absolute')
+        if rq.random () < 0.3:
+            kw ['load_by_geo'] = True
+        rq.shuffle (opt)
+        kw ['opt'] = tuple (opt)
+        textf = common.guarded (lambda: m.as_cmdline (**kw), 'as_cmdline')
+        argvf = textf.split ()
+        mon ['field-requests'] = 1
+        rf = common.run_main (argvf)
+        if rf ['kind'] == 'exception':
+            raise common.Repo_Crash (rf ['exc'], 'main(read back, field requests)')
+        if kw.get ('load_by_geo'):
+            # attachments written as (pulse of object, tag): same loaded pulses, same impedances
+            rg = common.run_main (argvf, return_mininec = True)
+            if rg ['kind'] == 'exception':
+                raise common.Repo_Crash (rg ['exc'], 'main(read back, loads by object)')
+            if rg ['model'] is not None:
+                bg = describe (rg ['model'])
+                if {k: len (v) for k, v in a ['load_parts'].items ()} != {k: len (v) for k, v in bg ['load_parts'].items ()}:
+                    bad ('field-requests', 'loaded-pulses-by-object', 'attachments written by object: loads per pulse %r read back as %r'
+                         % ({k + 1: len (v) for k, v in sorted (a ['load_parts'].items ())}, {k + 1: len (v) for k, v in sorted (bg ['load_parts'].items ())}))
+        if rf ['ret'] is not None and 'Computation failed' in (rf ['out'] + rf ['err']):
+            pass        # the first run did not ask for these tables (e. g. sources that absorb net power and a power level)
+        elif rf ['ret'] is not None:
+            msg = (rf ['out'] + rf ['err']).strip ().split ('\n') [-1] [:160]
+            bad ('field-requests', 'written-field-options-rejected', 'as_cmdline with field requests %r is rejected: %s' % ({k: v for k, v in kw.items () if k not in ('azi', 'zen')}, msg))
+        else:
+            from pmv.oracles import report
+            rep = report.parse (rf ['out'])
+            six = lambda got, want: abs (got - want) <= 6e-6 * abs (want) + 1e-12
+            th  = instrument.exact_grid (*zen)
+            ph  = instrument.exact_grid (*azi)
+            want = [(t, q) for q in ph for t in th]
+            rows = (rep ['far'] or dict (rows = [])) ['rows']
+            if len (rows) != len (want) or not all (six (report.num (r [0]), t) and six (report.num (r [1]), q) for r, (t, q) in zip (rows, want)):
+                bad ('field-requests', 'far-field-request', 'angles %r / %r written as %r give pattern rows %r ...' % (zen, azi, [x for x in argvf if 'theta' in x or 'phi' in x], [r [:2] for r in rows [:3]]))
+            if 'ff_dist' in kw and len ((rep ['far_abs'] or dict (rows = [])) ['rows']) != len (want):
+                bad ('field-requests', 'far-field-request', 'no V/m table of %d rows for --ff-distance %r' % (len (want), kw ['ff_dist']))
+            g = [instrument.exact_grid (near [k], near [3 + k], near [6 + k]) for k in range (3)]
+            wantn = [(x, y, z) for z in g [2] for y in g [1] for x in g [0]]
+            for nm, pts in (('E', rep ['near_e']), ('H', rep ['near_h'])):
+                if len (pts) != len (wantn) or not all (all (six (report.num (tk), c) for tk, c in zip (pt ['point'], w)) for pt, w in zip (pts, wantn)):
+                    bad ('field-requests', 'near-field-request', 'near-field grid %r written as %r gives %d %s points, first %r' % (near, [x for x in argvf if 'near-field=' in x], len (pts), nm, pts [0]['point'] if pts else None))
+                    break
+            for key, pat in (('pwr_ff', r'NEW POWER LEVEL =\s*(\S+)'), ('pwr_nf', r'NEW POWER LEVEL \(WATTS\) =\s*(\S+)'), ('ff_dist', r'RADIAL DISTANCE =\s*(\S+)')):
+                found = [report.num (x) for x in re.findall (pat, rf ['out'])]
+                if key == 'pwr_ff' and 'ff_dist' not in kw:
+                    continue            # the dBi table does not depend on the power level and does not show it
+                if key in kw:
+                    # the report shows a number below one with as few as four digits (number formatting is C19's business)
+                    if not found or not all (abs (x - kw [key]) <= 2e-4 * kw [key] for x in found):
+                        bad ('field-requests', 'level-request', '%s = %r: the report of the written options shows %r' % (key, kw [key], found [:3]))
+                elif found:
+                    bad ('field-requests', 'level-request', '%s not requested, the report of the written options shows %r' % (key, found [:3]))
     # ---- feed impedance
     if not viol:
         observe.solve (m)
